@@ -98,16 +98,22 @@ CHECKS = {
         "level": "exploration",
         "tests": [
             {"pkg": "kvx", "run": "^TestC13_Structured$", "quick": 6000, "thorough": 150000},
+            {"pkg": "leaderx", "run": "^TestC13_Replay$", "quick": 600, "thorough": 20000},
         ],
-        "floors": {"outside_client_library": 0.3},
-        "rule": "sequences of 1-12 WriteRequests a client can put on the wire (valid UTF-8, keys outside '__oxia/'), including ones "
+        "floors": {"outside_client_library": 0.25, "non_utf8_string": 0.02},
+        "rule": "sequences of 1-12 WriteRequests a client can put on the wire (any bytes in string fields, including strings that are not valid UTF-8 - the server's vtprotobuf codec accepts them; keys outside '__oxia/'), including ones "
                 "the project's client never builds: sequence deltas with/without partition key, with expected version, delta 0 / "
                 "2^64-1, unknown/closed/arbitrary session ids, index names/keys that are empty, contain '/' or \x01 or are 200 "
                 "bytes long, empty keys and values, very long keys, up to 50 puts, delete-ranges with empty/equal/inverted "
                 "bounds; applied to two real databases: ProcessWrite must return no error and one status per operation, both "
                 "replicas answer identically, the database reopens and both dumps are identical (notification records "
                 "compared decoded). Non-trivial: the history contains >=1 operation outside what oxia/ builds. Listed known "
-                "findings are re-confirmed by scripted inputs and excluded by construction (counted).",
+                "findings are re-confirmed by scripted inputs and excluded by construction (counted). Second generator "
+                "(TestC13_Replay, leaderx): 2-14 such requests (3 of 4 hostile) sent by 1-4 writers through a real RF=1 "
+                "leaderController; a crash image (database after the k-th commit + the WAL as of the end) is restarted: the "
+                "node must open, BecomeLeader must replay entries c+1..head without error, a fresh database must accept the "
+                "whole decoded log, and both must end in the same state. Non-trivial there: hostile content was in the "
+                "replayed part.",
         "assumptions": ["keys inside the reserved prefix are outside the domain", "delete-range bounds are slash-free here (ranges across reserved records belong to no listed property)"],
     },
     "C16": {
